@@ -202,9 +202,21 @@ func (n *idleBarrier) emitBarrier() error {
 		return err
 	}
 	if n.del {
-		return n.in.Collect(edge.NewDeleteGroupMessage(n.group))
+		return collectDeleteGroup(n.in, n.group)
 	}
 	return nil
+}
+
+// collectDeleteGroup sends a delete group message into the barrier node's own input edge.
+// That edge belongs to the parent node, which closes it when the task stops while the
+// barrier goroutines are still running: losing that race must not panic.
+func collectDeleteGroup(in edge.Edge, group edge.GroupInfo) (err error) {
+	defer func() {
+		if r := recover(); r != nil {
+			err = errors.New("input edge of the barrier node is closed")
+		}
+	}()
+	return in.Collect(edge.NewDeleteGroupMessage(group))
 }
 
 func (n *idleBarrier) idleHandler() {
@@ -324,7 +336,7 @@ func (n *periodicBarrier) emitBarrier() error {
 	}
 	if n.del {
 		// Send DeleteGroupMessage into self
-		return n.in.Collect(edge.NewDeleteGroupMessage(n.group))
+		return collectDeleteGroup(n.in, n.group)
 	}
 	return nil
 }
